@@ -121,8 +121,12 @@ func c22GenBackoff(r *Rng) string {
 
 func c22GenHistory(r *Rng) string {
 	maxAtt := []int{0, 1, 2, 3, 3, 5}[r.Intn(6)]
-	minMs := []int{10000, 20000, 60000}[r.Intn(3)] // far above a case's run time: only the explicit ageing op makes rows due
-	maxMs := []int{0, 10000, 40000, 80000, 3600000}[r.Intn(5)]
+	minMs := []int{60000, 120000, 600000}[r.Intn(3)] // far above a case's run time: only the explicit ageing op makes rows due
+	maxMs := []int{0, 60000, 240000, 1200000, 3600000}[r.Intn(5)]
+	stepped := r.Chance(45) // drive the dispatcher step by step: crashes, takeovers, failing writes, restarts
+	if stepped {
+		maxAtt = []int{1, 2, 2, 3, 3, 0}[r.Intn(6)]
+	}
 	var masks []string
 	for _, d := range "qtle" {
 		m := []int{0, 0, 1, 3, 7, 255, r.Intn(32)}[r.Intn(7)]
@@ -131,8 +135,33 @@ func c22GenHistory(r *Rng) string {
 	buckets := []string{"bka", "bkb"}
 	keys := []string{"a", "ab", "img/a.jpg", "b"}
 	ops := []string{"K:bka", "K:bkb"}
-	if r.Chance(35) {
+	if r.Chance(50) {
 		ops = append(ops, "V:"+r.Pick(buckets))
+	}
+	genBatch := func(b string) string {
+		var ents []string
+		for i := 0; i <= r.Intn(5); i++ {
+			k := r.Pick(keys)
+			if r.Chance(12) {
+				k = "zz" // never written
+			}
+			if len(ents) > 0 && r.Chance(20) { // the same key twice in one request
+				k = strings.Split(ents[r.Intn(len(ents))], "~")[0]
+			}
+			v := "-"
+			switch w := r.Intn(100); {
+			case w < 30:
+				v = "v" + strconv.Itoa(r.Intn(3))
+			case w < 42:
+				v = "x"
+			}
+			ents = append(ents, k+"~"+v+"~"+r.Pick([]string{"n", "n", "m", "s"}))
+		}
+		j := 0
+		if r.Chance(20) {
+			j = 1 + r.Intn(4)
+		}
+		return fmt.Sprintf("G:%s:%d:%s", b, j, strings.Join(ents, "|"))
 	}
 	genConfig := func(b string) string {
 		var rules []string
@@ -176,9 +205,11 @@ func c22GenHistory(r *Rng) string {
 			ops = append(ops, fmt.Sprintf("C:%s:%s:%s:%s:%d", b, k, r.Pick(buckets), r.Pick(keys), j))
 		case w < 48:
 			ops = append(ops, fmt.Sprintf("M:%s:%s:%d", b, k, j))
-		case w < 62:
+		case w < 56:
 			ops = append(ops, fmt.Sprintf("D:%s:%s:%d", b, k, j))
-		case w < 72:
+		case w < 66:
+			ops = append(ops, genBatch(b))
+		case w < 74:
 			ops = append(ops, fmt.Sprintf("T:%s:%s:%d", b, k, j))
 		case w < 78:
 			ops = append(ops, fmt.Sprintf("U:%s:%s:%d", b, k, j))
@@ -190,7 +221,59 @@ func c22GenHistory(r *Rng) string {
 			ops = append(ops, "A")
 		}
 	}
+	if stepped {
+		held := map[int]bool{}
+		for i := 0; i < 6+r.Intn(10); i++ {
+			slot := r.Intn(3)
+			if r.Chance(45) { // scenario fragments around one entry
+				s1, s2 := r.Intn(3), r.Intn(3)
+				if s2 == s1 {
+					s2 = (s1 + 1) % 3
+				}
+				switch r.Intn(5) {
+				case 0: // crash after the claim, takeover, late (stale) dispatch of the first owner
+					ops = append(ops, fmt.Sprintf("Y:%d;L;Y:%d;E:%d:n;E:%d:n", s1, s2, s2, s1))
+				case 1: // crash between publish and the database write, redelivery by another owner
+					ops = append(ops, fmt.Sprintf("Y:%d;E:%d:f;L;Y:%d;E:%d:n", s1, s1, s2, s2))
+				case 2: // attempts step past MaxAttempts without any handled failure, then a handled one
+					ops = append(ops, fmt.Sprintf("Y:%d;L;Y:%d;L;Y:%d;L;Y:%d;E:%d:n", s1, s2, s1, s2, s2))
+				case 3: // MaxAttempts lowered across a restart
+					ops = append(ops, fmt.Sprintf("Y:%d;L;Y:%d;L;Z:%d:1;Y:%d;E:%d:n", s1, s2, s1, s1, s1))
+				default: // stale owner acts first, then the new one
+					ops = append(ops, fmt.Sprintf("Y:%d;L;Y:%d;E:%d:n;A;E:%d:n", s1, s2, s1, s2))
+				}
+				if r.Chance(40) {
+					ops = append(ops, "A")
+				}
+				continue
+			}
+			switch w := r.Intn(100); {
+			case w < 30:
+				ops = append(ops, fmt.Sprintf("Y:%d", slot))
+				held[slot] = true
+			case w < 55:
+				for t := 0; t < 3 && !held[slot]; t++ {
+					slot = r.Intn(3)
+				}
+				delete(held, slot)
+				ops = append(ops, fmt.Sprintf("E:%d:%s", slot, r.Pick([]string{"n", "n", "n", "f"})))
+			case w < 72:
+				ops = append(ops, "L")
+			case w < 82:
+				ops = append(ops, "A")
+			case w < 90:
+				ops = append(ops, fmt.Sprintf("Z:%d:%d", slot, []int{1, 1, 2, 3, 0}[r.Intn(5)]))
+				delete(held, slot)
+			default:
+				ops = append(ops, "X")
+			}
+		}
+		ops = append(ops, "L", "A", "X")
+	}
 	rounds := maxAtt + r.Intn(3)
+	if stepped {
+		rounds = r.Intn(2)
+	}
 	for i := 0; i < rounds; i++ {
 		ops = append(ops, "X")
 		if r.Chance(85) {
@@ -204,9 +287,9 @@ func (c22) Gen(r *Rng, tier string, n int) []string {
 	cases := make([]string, 0, n)
 	for len(cases) < n {
 		switch w := r.Intn(100); {
-		case w < 8:
+		case w < 16:
 			cases = append(cases, c22GenHistory(r))
-		case w < 30:
+		case w < 34:
 			cases = append(cases, c22GenBackoff(r))
 		default:
 			cases = append(cases, c22GenRule(r))
